@@ -349,7 +349,7 @@ var progDataDesc = mustParse(`[ i |-> <<"int", 2>>, j |-> <<"int", -7>>, f |-> <
   st |-> <<"struct", [A |-> <<"int", 1>>, B |-> <<"str", <<98>>>>, N |-> <<"nilptr">>, P |-> <<"int", 3>>], <<"c">>>>,
   sl |-> <<"slice", <<<<"int", 1>>, <<"str", <<98>>>>, <<"nil">>>>>>, ss |-> <<"strs", <<<<97>>, <<98>>>>>>, t |-> <<"time", 19000, 3600000, 0>>,
   rec |-> <<"func", "rec">>, fail |-> <<"func", "fail">>, failv |-> <<"func", "failv">>, add2 |-> <<"func", "add2">>, cat |-> <<"func", "cat">>, recs |-> <<"func", "recs">>,
-  nan |-> <<"f64nan">>, inf |-> <<"f64inf", FALSE>> ]`)
+  nan |-> <<"f64nan">>, inf |-> <<"f64inf", FALSE>>, crec |-> <<"func", "crec">>, cstr |-> <<"func", "cstr">> ]`)
 
 var progNames = []string{"i", "j", "f", "d", "z", "s", "e", "w", "b", "nb", "nl", "np", "m", "tm", "st", "sl", "ss", "t", "nan", "inf", "undefined", "$a", "$b"}
 var progBinOps = []string{"+", "-", "*", "<", ">", "<=", ">=", "==", "!=", "===", "!==", "&", "|", "^", "&&", "||", "??", "+", "===", "&&", "||"}
@@ -359,7 +359,7 @@ var progBuiltins = []struct {
 }{{"abs", 1}, {"ceil", 1}, {"floor", 1}, {"round", 1}, {"roundBank", 1}, {"max", 2}, {"min", 3}, {"finite", 1}, {"toInt", 1}, {"toFloat", 1}, {"toString", 1},
 	{"startWith", 2}, {"endWith", 2}, {"contains", 2}, {"find", 2}, {"left", 2}, {"right", 2}, {"mid", 3}, {"len", 1}, {"lower", 1}, {"upper", 1}, {"trim", 1},
 	{"replace", 3}, {"lpad", 3}, {"rpad", 3}, {"includes", 2}, {"join", 2}, {"regexp", 2}, {"date", 3}, {"year", 1}, {"month", 1}, {"day", 1}, {"weekDay", 1},
-	{"addDate", 4}, {"millSecond", 1}, {"timeFormat", 2}, {"rec", 1}, {"fail", 1}, {"failv", 1}, {"add2", 2}, {"cat", 2}, {"recs", 2}, {"mapToArr", 2}, {"roundCash", 2}}
+	{"addDate", 4}, {"millSecond", 1}, {"timeFormat", 2}, {"rec", 1}, {"fail", 1}, {"failv", 1}, {"add2", 2}, {"cat", 2}, {"recs", 2}, {"mapToArr", 2}, {"roundCash", 2}, {"crec", 1}, {"cstr", 1}, {"crec", 1}}
 
 type progGen struct {
 	rng    *rand.Rand
